@@ -313,6 +313,30 @@ def dominators(f):
     return dom
 
 
+def natural_loops(f):
+    """{header block: set of blocks of the natural loop(s) with that header} (back edges u -> h with h dominating u)."""
+    memo = f.__dict__.get('_natural_loops')
+    if memo is not None:
+        return memo
+    dom = dominators(f)
+    preds = f.preds()
+    loops = {}
+    for u in dom:
+        for h in f.blocks[u].succ:
+            if h is not None and h in dom.get(u, ()):
+                body = {h, u}
+                work = [u] if u != h else []
+                while work:
+                    x = work.pop()
+                    for (pb, _) in preds.get(x, []):
+                        if pb not in body and pb in dom:
+                            body.add(pb)
+                            work.append(pb)
+                loops.setdefault(h, set()).update(body)
+    f.__dict__['_natural_loops'] = loops
+    return loops
+
+
 def reach_avoiding(f, src_blocks, avoid_edge=None, avoid_block=None):
     """Blocks reachable from src_blocks without taking avoided edges / entering avoided blocks."""
     seen = set(src_blocks)
